@@ -46,14 +46,14 @@ func (c *Ctx) probesFor(path, term string, t types.Type, depth int, out *[]probe
 		if _, isArr := tt.Elem().Underlying().(*types.Array); isArr {
 			return
 		}
-		es := c.sortOf(tt.Elem())
+		es := c.hk(tt.Elem())
 		c.probesFor("(*"+path+")", fmt.Sprintf("(select (select %s (pobj %s)) (pidx %s))", c.heap(st, es), term, term), tt.Elem(), depth+1, out)
 	case *types.Slice:
 		*out = append(*out, probe{path + "#len", "(slen " + term + ")", tInt})
 		*out = append(*out, probe{path + "#cap", "(scap " + term + ")", tInt})
 		*out = append(*out, probe{path + "#obj", "(sobj " + term + ")", tInt})
 		*out = append(*out, probe{path + "#off", "(soff " + term + ")", tInt})
-		es := c.sortOf(tt.Elem())
+		es := c.hk(tt.Elem())
 		for i := 0; i < probeElems; i++ {
 			c.probesFor(fmt.Sprintf("%s[%d]", path, i), fmt.Sprintf("(select (select %s (sobj %s)) (+ (soff %s) %d))", c.heap(st, es), term, term, i), tt.Elem(), depth+1, out)
 		}
